@@ -339,6 +339,89 @@ def check_slice(ck, prog):
         raise AnalysisBroken("block_decode: expected 3 size-mismatch returns, found %d" % n)
 
 
+def check_seqlabel(ck, prog, rule="C06-SEQLABEL", targets=(("lzma_decode", "lzma_decoder.c"),), floor=20):
+    """In the resumable LZMA decoder every suspension point stores the state to resume in and jumps to the epilogue
+    (`rc_normalize_safe(SEQ_X)`: `coder->sequence = SEQ_X; goto out;`).  The next call enters at `case SEQ_X:`; the
+    suspension therefore has to sit under that very label (reachable from it without passing another case label) --
+    otherwise the decoder resumes at a different symbol step, re-decodes a bit that was already consumed, and the result
+    depends on where the input was cut."""
+    from sa import resume
+    ck.rule(rule, "each suspension point of the resumable LZMA decoder stores the state whose case label it sits under")
+    n = 0
+    for fn, file in targets:
+        f = prog.fn(fn, file)
+        ck.saw_function(f)
+        sw = resume.Resume(prog, f).find_switch()
+        if not sw:
+            raise AnalysisBroken("%s: state switch not found" % fn)
+        swb = sw[0]
+        labels = {}
+        for s_ in swb.succs:
+            if s_ is not None:
+                lb = f.blocks[s_].label
+                if lb and lb.get("n"):
+                    labels.setdefault(s_, set()).add(lb["n"])
+        # `case A: case B:` -- the empty block of A falls into the block of B: A labels B's block as well
+        changed = True
+        while changed:
+            changed = False
+            for bid in list(labels):
+                blk = f.blocks[bid]
+                succ = [y for y in blk.succs if y is not None]
+                if not [e for e in blk.elems if e is not None] and len(succ) == 1 and succ[0] in labels:
+                    if not labels[bid] <= labels[succ[0]]:
+                        labels[succ[0]] |= labels[bid]
+                        changed = True
+        lab_blocks = set(labels)
+
+        def region(start):
+            seen, st = set(), [start]
+            while st:
+                x = st.pop()
+                if x in seen:
+                    continue
+                seen.add(x)
+                for y in f.blocks[x].succs:
+                    if y is None or y == swb.id:
+                        continue
+                    if y in lab_blocks and not (not [e for e in f.blocks[x].elems if e is not None] and x in lab_blocks):
+                        continue
+                    st.append(y)
+            return seen
+        reach = {lbk: region(lbk) for lbk in lab_blocks}
+        for b, i, e in f.iter_elems():
+            for (l, r, op, node) in ex.writes(e):
+                if not (ex.show(l).endswith("->sequence") and op == "=" and r is not None and ex.strip(r).get("k") == "enum"):
+                    continue
+                Y = ex.strip(r)["n"]
+                # a suspension: the exit is reachable without passing a case label or the switch
+                seen, st, susp = set(), [b.id], False
+                while st:
+                    x = st.pop()
+                    if x in seen:
+                        continue
+                    seen.add(x)
+                    if x == f.exit:
+                        susp = True
+                        break
+                    st.extend(y for y in f.blocks[x].succs if y is not None and y not in lab_blocks and y != swb.id)
+                if not susp:
+                    continue
+                L = set()
+                for lbk, rs in reach.items():
+                    if b.id in rs:
+                        L |= labels[lbk]
+                n += 1
+                ck.ob(rule, "%s:%s:%s" % (fn, Y, ex.line(node)), Y in L or not L, common.where(f, node),
+                      "%s: suspension storing %s lies under case %s" % (fn, Y, "/".join(sorted(L))) if (Y in L or not L) else
+                      "%s(): the suspension at line %s stores coder->sequence = %s but lies under `case %s:`: after the input "
+                      "runs out here the next call resumes at %s and repeats / skips a decoding step, so the result depends "
+                      "on where the input was cut" % (fn, ex.line(node), Y, "/".join(sorted(L)), Y),
+                      key="%s:%s:%s" % (rule.split("-", 1)[1], fn, Y if Y in L or not L else "%s-under-%s" % (Y, "/".join(sorted(L)))))
+    ck.floor(rule, floor, what="obligations")
+    return n
+
+
 def run(ck):
     ck.explanation = (
         "Static necessary conditions of slicing independence: (RESUME) liveness/reaching-definition "
@@ -351,6 +434,7 @@ def run(ck):
                       "from thread count and timeouts, filter-string vs struct chains.")
     prog = common.program(ck, ("liblzma",))
     check_resume(ck, prog)
+    check_seqlabel(ck, prog)
     check_crc(ck, prog)
     check_det(ck, prog)
     check_slice(ck, prog)
